@@ -68,10 +68,16 @@ var c09moreCases = []struct {
 		"/main.jet": `{{include .tpl .item}}|{{range .items}}{{include "/" + .kind + ".jet" .label}}{{end}}`,
 		"/card.jet": `[card {{.}}]`, "/row.jet": `[row {{.}}]`},
 		map[string]interface{}{"tpl": "/card.jet", "item": "one", "items": []map[string]string{{"kind": "card", "label": "a"}, {"kind": "row", "label": "b"}}}, "[card one]|[card a][row b]", false},
+	// an include name is any string-kinded value (a named string type too)
+	{"include-name-of-named-string-type", map[string]string{
+		"/main.jet": `{{range .kinds}}<{{include .}}>{{end}}|{{include .first "c"}}`, "/card.jet": `[card {{.}}]`, "/row.jet": `[row {{.}}]`},
+		map[string]interface{}{"kinds": []c09kind{"/card.jet", "/row.jet"}, "first": c09kind("/row.jet")}, "<[card /card.jet]><[row /row.jet]>|[row c]", false},
 	{"computed-name-reads-dot-string-context", map[string]string{
 		"/main.jet": `{{include .tpl "literal-ctx"}}`, "/card.jet": `[card {{.}}]`},
 		map[string]interface{}{"tpl": "/card.jet"}, "[card literal-ctx]", false},
 }
+
+type c09kind string
 
 var c09varForms = []string{"nil VarMap", "empty VarMap", "VarMap with an unrelated variable"}
 
